@@ -406,9 +406,6 @@ func VerifHarness_C08_RetentionCutoff() {
 	// the clock is in 2026-2027 (the native replay runs on the real clock)
 	vAssume(before.UnixNano() >= 1767225600000000000 && before.UnixNano() < 1830297600000000000)
 	maxPts := 1 // two points sharing a group are the subject of VerifHarness_C08_OldPointInLiveGroup
-	if vThorough() {
-		maxPts = 2
-	}
 	nPts := vLen("points", 1, maxPts)
 	var pts []models.Point
 	var ages []int64
